@@ -234,7 +234,10 @@ def expected_rewards(losses):
             best = l
             continue
         nb = min(best, l)
-        out[k] = (best - nb) / best if nb < best else 0.0
+        if nb < best and best == 0:
+            out[k] = None  # the published rule divides by the previous best: undefined here (finding zero-reference-loss)
+        else:
+            out[k] = (best - nb) / best if nb < best else 0.0
         best = nb
     return out
 
@@ -272,7 +275,7 @@ def oracle(cfg, o, ref):
         fails.append(("learn-once", f"batches chosen by the agent {chosen} but learn calls for {real}"))
     er = expected_rewards(cfg["losses"])
     for a, r, s in o["learned"]:
-        if s is not None and s in er and r != er[s]:
+        if s is not None and er.get(s) is not None and r != er[s]:
             fails.append(("wrong-reward", f"batch {s}: reward {r}, expected {er[s]} from that batch's outcome"))
             break
     for i, e in enumerate(o["session_ends"]):
@@ -296,6 +299,8 @@ def loss_seq(kind, n):
         return [float(2 ** (12 - i)) for i in range(n)]
     if kind == "zero":
         return [0.0] * n
+    if kind == "zero-cross":  # the best loss is exactly 0, then a loss improves on it
+        return [1.0, 0.0, -1.0, -2.0, -2.0, -4.0][:n]
     if kind == "flat":
         return [64.0] + [64.0 + i for i in range(1, n)]
     return [float(2 ** (12 - (i // 2) * 2)) + (0.0 if i % 2 == 0 else 3.0) for i in range(n)]  # improves every other batch
@@ -333,6 +338,11 @@ def gen_configs(chk):
     for sh in ([3], [2, 1]):
         cfgs.append({"sessions": sh, "losses": loss_seq("zero", 3), "loss_kind": "zero", "nsam": 2, "halton": rng.below(2),
                      "agent": {"kind": "script", "script": [rng.below(2) for _ in range(3)]}, "oracle": True})
+    # a best loss of exactly 0 that is then improved upon (negative losses: a user-defined loss, negative weights): get_reward
+    # divides by the reference loss (known finding zero-reference-loss; model: reward_raises -> the agent's thread dies)
+    for sh in ([4], [3], [2, 2]):
+        cfgs.append({"sessions": sh, "losses": loss_seq("zero-cross", sum(sh)), "loss_kind": "zero-cross", "nsam": 2,
+                     "halton": rng.below(2), "agent": {"kind": "script", "script": [rng.below(2) for _ in range(3)]}, "oracle": True})
     # a batch that fails after its sampler was designated, then further sessions (retry): the Coq model has no fault step, so these
     # configurations are judged by the oracle alone ("never learns from an action that was not executed", "no message is left
     # over", attribution in the sessions that follow)
@@ -435,7 +445,12 @@ def run(chk, replay=None):
                 lits.append("(oracle-only configuration with an injected batch fault)")
                 worst[clause] = (size, len(cases) - 1, case, text, fails)
     for clause, (_, i, case, text, fails) in sorted(worst.items()):
-        chk.violation({"kind": "oracle", "clause": clause},
+        desc = {"kind": "oracle", "clause": clause}
+        died = (cases[i].get("a_exc") or [""])[0]
+        if (case["cfg"].get("loss_kind") == "zero-cross" and "ZeroDivisionError" in died
+                and clause in ("agent-thread-died", "deadlock", "leftover-message", "learn-once")):
+            desc["input"] = "zero-reference-loss"  # what the known finding is identified by; any other clause is reported as usual
+        chk.violation(desc,
                       {"failed": f"oracle:{clause}: {text}", "all": [f"{c}: {t}" for c, t in fails], "case": case,
                        "observed": cases[i], "coq_case": lits[i],
                        "follows_pre_repair_protocol_sample": f"{follows_old}/{len(sample_idx)}",
